@@ -76,6 +76,8 @@ def main(argv):
         report.finish(ctx)
         return 2
     ctx.prog = prog
+    for pr in prog.stats.get('coverage_problems', []):
+        ctx.warn('coverage', 'driver/instantiate.cpp', pr)
     ctx.assume('clang 14 front end (name resolution, template instantiation, JSON AST dump) is correct')
     ctx.assume('real arithmetic for finite operands (no overflow/underflow); IEEE-754 '
                'classification for NaN and infinities')
